@@ -11,6 +11,30 @@ TRUSTED = [
 ]
 
 
+def proof_part_more(rep, prop_file, extra_trusted=()):
+    """A second property file of the same property: adds its obligations/axioms to what proof_part recorded."""
+    st = vlib.proof_status(prop_file)
+    n = len(st["theorems"])
+    ok = st["compiled"] and not st["bad_axioms"] and not st["missing_print_assumptions"]
+    rep.coverage["obligations"] = rep.coverage.get("obligations", 0) + n
+    rep.coverage["discharged"] = rep.coverage.get("discharged", 0) + (n if ok else 0)
+    rep.coverage["checker_cmd"] = rep.coverage.get("checker_cmd", "") + " ; Properties/%s.vo" % prop_file
+    rep.coverage["trusted_base"] = rep.coverage.get("trusted_base", []) + list(extra_trusted) + ["axioms per theorem of %s (Print Assumptions): " % prop_file + "; ".join("%s: %s" % (t, ", ".join(a) if a else "closed") for t, a in sorted(st["axioms"].items()))]
+    rep.coverage["theorems"] = rep.coverage.get("theorems", []) + st["theorems"]
+    if not st["compiled"]:
+        import re
+        m = re.search(r'File "\./([^"]+)", line (\d+)', st["log"])
+        where = "%s:%s" % (m.group(1), m.group(2)) if m else "?"
+        rep.violation(dict(kind="proof", clause="coqc"), "proof obligations of %s no longer check (first error at %s)" % (prop_file, where),
+                      dict(theorem_file=prop_file, first_error=where, log=st["log"][-3000:]))
+    for b in st["bad_axioms"]:
+        rep.violation(dict(kind="proof", clause="axiom"), "non-whitelisted axiom: " + b, dict(axiom=b))
+    for t in st["missing_print_assumptions"]:
+        if st["compiled"]:
+            rep.violation(dict(kind="proof", clause="print-assumptions"), "theorem %s has no Print Assumptions" % t, dict(theorem=t))
+    return st
+
+
 def proof_part(rep, prop_file, extra_trusted=()):
     """Re-checks the proofs of one property file and records obligations."""
     bad = vlib.scan_forbidden()
